@@ -10,6 +10,9 @@ R11.perm   setXYZVector / toXYZVector / XYZ-layout constructor are mutually inve
 R11.near   nearestRotation (six non-repeated fixed-axis orders): its alternative candidate is pi - angle on exactly the component
            that leaves Euler(order).setXYZVector(v).toMatrix33() unchanged (trig substitution), pi + angle on the other two
 R11.mod    angleMod: congruent to its argument mod 2*pi with result in [-pi, pi] after fmod; simpleXYZRotation per slot
+R11.re     the re-ordering constructor Euler(e, order): toMatrix33 of the result == toMatrix33(e) (t_i = tan(angle_i/2) rational
+           parametrisation; quick: representatives of the 32 classes of order pairs, thorough: all 576 pairs)
+R11.xe     extractEulerXYZ / extractEulerZYX / extractEuler(Matrix22|33) invert their builders under positive row scaling
 R11.rt     extract(toMatrix33(angles)).toMatrix33() == toMatrix33(angles) on the generic cell (cos of the middle
            angle positive), using cos(atan2(y,x)) = x/sqrt(x^2+y^2), sin(atan2(y,x)) = y/sqrt(x^2+y^2)
 """
